@@ -171,6 +171,7 @@ def run(ctx):
     def find(l, a, b):
         return [p for p in l if expr_str(p["e1"]) == a and expr_str(p["e2"]) == b]
     fixed = (find(mism, "Celsius", "Meters") + find(mism, "Meters", "Seconds") + find(mism, "Unos", "Radians") + find(mism, "Hertz", "Seconds") +
+             find(mism, "Meters*[6^1/1]", "Seconds*[10^1/1]") + find(mism, "Seconds*[4^-2/1]", "Feet*[6^1/1]") + find(mism, "Seconds*[10^1/1]", "Meters*[6^1/1]") +
              find(mism, "Meters^3/2", "Feet^1/2") + find(mism, "Feet^1/2", "Meters^3/2") + find(mism, "Feet^2/3", "Meters^1/2") + find(mism, "Seconds^-1/2", "Seconds^-1"))
     merge = [p for p in mism if (expr_str(p["e1"]), expr_str(p["e2"])) in extra_keys] + [p for p in mism if expr_str(p["e2"]) == "Unos" and p["e1"]["op"] == "div" and p["e1"]["l"]["op"] == "unit" and p["e1"]["r"]["op"] == "unit"
              and p["e1"]["l"]["id"] in BASE_UNITS and p["e1"]["r"]["id"] in BASE_UNITS]
